@@ -1,3 +1,5 @@
 import Sqljson.Audit
 import Sqljson.Props.C13
+import Sqljson.Props.C13c
 #audit_ns C13 Sqljson.C13
+#audit_ns C13 Sqljson.C13c
